@@ -4,6 +4,7 @@ import (
 	"bytes"
 	"fmt"
 	"runtime/debug"
+	"strings"
 
 	"github.com/cockroachdb/apd/v2"
 	compact_time "github.com/kstenerud/go-compact-time"
@@ -179,6 +180,12 @@ func runC03(c *fw.Ctx, idx int) {
 			c.Inc("encode_failed_skipped")
 			return
 		}
+		if idx%12 == 2 {
+			// numbers spelled by hand, in ways the library's own encoder never writes them (many digits, zeros of every length and sign,
+			// leading zeros, long fractions, explicit exponents, hexadecimal floats)
+			doc = c03SpelledNumbers(c)
+			c.Inc("hand_spelled_number_documents")
+		}
 		c.Note("cte %q", string(doc))
 		b0 := decodeDoc(ce.NewCTEDecoder(cfg), doc, cfg, true)
 		if b0.Panic != nil || b0.Err != nil {
@@ -298,4 +305,47 @@ func c03FromCTE(c *fw.Ctx, cfg *configuration.Configuration, text []byte, b0 []e
 		}
 		c.Fail(sig, map[string]interface{}{"source": src, "cbe": hexs(doc), "path": path, "diff": desc})
 	}
+}
+
+// c03SpelledNumbers: a CTE list of 1..6 numeric literals spelled in ways the encoder never produces.
+func c03SpelledNumbers(c *fw.Ctx) []byte {
+	r := c.Rng
+	digits := func(n int, zeros bool) string {
+		b := make([]byte, n)
+		for i := range b {
+			b[i] = '0'
+			if !zeros {
+				b[i] = byte('0' + r.Intn(10))
+			}
+		}
+		return string(b)
+	}
+	var sb strings.Builder
+	sb.WriteString("c0\n[")
+	for i, n := 0, 1+r.Intn(6); i < n; i++ {
+		sb.WriteByte('\n')
+		if r.Intn(2) == 0 {
+			sb.WriteByte('-')
+		}
+		zeros := r.Intn(3) == 0
+		switch r.Intn(5) {
+		case 0: // integer
+			sb.WriteString(digits(1+r.Intn(30), zeros))
+		case 1, 2: // decimal with fraction
+			sb.WriteString(digits(1+r.Intn(25), zeros || r.Intn(3) == 0))
+			sb.WriteByte('.')
+			sb.WriteString(digits(1+r.Intn(25), zeros))
+		case 3: // decimal with exponent
+			sb.WriteString(digits(1+r.Intn(30), zeros))
+			if r.Intn(2) == 0 {
+				sb.WriteByte('.')
+				sb.WriteString(digits(1+r.Intn(10), zeros))
+			}
+			fmt.Fprintf(&sb, "e%d", r.Intn(600)-300)
+		default: // hexadecimal float
+			fmt.Fprintf(&sb, "0x%x.%xp%d", r.Intn(16), r.Uint64()>>uint(r.Intn(60)), r.Intn(200)-100)
+		}
+	}
+	sb.WriteString("\n]")
+	return []byte(sb.String())
 }
